@@ -102,7 +102,7 @@ class ParCons(RankAggAlgorithm, PairwiseBasedAlgorithm):
             # the exact algorithm or a heuristics
             else:
                 # creation of a new Dataset representing the sub-problem
-                sub_problem = dataset.sub_problem_from_elements(set_current_elements)
+                sub_problem = dataset._sub_problem_keeping_all_rankings(set_current_elements)
                 if len(scc_i) > self._bound_for_exact:
                     cons_ext = self._auxiliary_alg.compute_consensus_rankings(
                         sub_problem, scoring_scheme, True).consensus_rankings[0]
